@@ -278,12 +278,10 @@ def nIterOf (P : Params α) (n : Nat) : Nat :=
 
 def emptyTri : Tri α := { prevAlphaRecip := 0, prevBeta := 0, t := fun _ _ => 0 }
 
-/-- `linear_cg`. -/
-def linearCg (N : NumOps α) (P : Params α) {n : Nat} (sys : List (Sys α n)) : Except Err (Out α n) :=
-  if P.maxTridiagIter > P.maxIter then .error .tridiagLimit else
+/-- `linear_cg` after its two error exits. -/
+def linearCgCore (N : NumOps α) (P : Params α) {n : Nat} (sys : List (Sys α n)) : Out α n :=
   let nTriIter := min P.maxTridiagIter n
   let preps := sys.map fun s => prep N P s
-  if preps.any (fun q => vecHasNan N q.r0) then .error .nan else
   let cols := List.zipWith (fun s q => initCol N P s q) sys preps
   let skip := cols.all (fun c => c.conv) && decide (P.nTridiag = 0)
   let nIter := if skip then 0 else nIterOf P n
@@ -293,11 +291,17 @@ def linearCg (N : NumOps α) (P : Params α) {n : Nat} (sys : List (Sys α n)) :
   let st := iterate N P sysz nTriIter nIter 0 st0
   let xs := List.zipWith (fun (ct : Col α n × Tri α) (q : Prep α n) => (fun i => ct.1.x i * q.nrm : Vec α n)) st.cs preps
   let ts := (List.zipWith (fun (s : Sys α n) (ct : Col α n × Tri α) => if s.tri then [ct.2.t] else []) sys st.cs).flatten
-  .ok { x := xs, t := ts, tSize := if P.nTridiag = 0 then 0 else min (st.lastTri + 1) nTriIter,
-        warn := !st.tolReached && decide (0 < nIter), iters := st.iters,
-        rns := st.cs.map fun ct => ct.1.rn,
-        amulTrace := (preps.map fun q => q.g) :: st.trace.reverse,
-        preCalled := !skip && P.precond }
+  { x := xs, t := ts, tSize := if P.nTridiag = 0 then 0 else min (st.lastTri + 1) nTriIter,
+    warn := !st.tolReached && decide (0 < nIter), iters := st.iters,
+    rns := st.cs.map fun ct => ct.1.rn,
+    amulTrace := (preps.map fun q => q.g) :: st.trace.reverse,
+    preCalled := !skip && P.precond }
+
+/-- `linear_cg`. -/
+def linearCg (N : NumOps α) (P : Params α) {n : Nat} (sys : List (Sys α n)) : Except Err (Out α n) :=
+  if P.maxTridiagIter > P.maxIter then .error .tridiagLimit else
+  if (sys.map fun s => prep N P s).any (fun q => vecHasNan N q.r0) then .error .nan else
+  .ok (linearCgCore N P sys)
 
 end
 end LinOp.C08
